@@ -61,13 +61,20 @@ func ruleNumericReferenceDecoders(w *World, r *Report) {
 					continue
 				}
 				d := dec{fn: fn, call: c, base: -1, k: -1}
+				baseParam, kParam := -1, -1
 				if bv, ok := constInt(c.Common().Args[1]); ok {
 					d.base = bv
+				} else if p, ok := stripConv(c.Common().Args[1]).(*ssa.Parameter); ok {
+					baseParam = paramIndex(fn, p)
 				}
 				for _, cf := range dominatingConds(b) {
 					for _, a := range condAtoms(cf.If.Cond, cf.Truth) {
 						bo, ok := a.V.(*ssa.BinOp)
-						if !ok || !a.Truth || bo.Op != token.LSS {
+						if !ok {
+							continue
+						}
+						// length < K, in either spelling: (len < K) true, or (len >= K) false
+						if !((bo.Op == token.LSS && a.Truth) || (bo.Op == token.GEQ && !a.Truth)) {
 							continue
 						}
 						sub, ok := stripConv(bo.X).(*ssa.BinOp)
@@ -77,11 +84,43 @@ func ruleNumericReferenceDecoders(w *World, r *Report) {
 						if sameValueLoose(sub.X, sl.High) && sameValueLoose(sub.Y, sl.Low) {
 							if k, ok := constInt(bo.Y); ok {
 								d.k = k
+							} else if p, ok := stripConv(bo.Y).(*ssa.Parameter); ok {
+								kParam = paramIndex(fn, p)
 							}
 						}
 					}
 				}
-				decs = append(decs, d)
+				if baseParam < 0 && kParam < 0 {
+					decs = append(decs, d)
+					continue
+				}
+				// a shared digit-run reader: base and/or limit are parameters; one decoder instance per call site, judged
+				// with the constants passed there and attributed to the calling function
+				for _, caller := range w.Funcs {
+					for _, cb := range caller.Blocks {
+						for _, ci := range cb.Instrs {
+							cc, ok := ci.(*ssa.Call)
+							if !ok || cc.Common().StaticCallee() != fn {
+								continue
+							}
+							di := dec{fn: caller, call: cc, base: d.base, k: d.k}
+							args := cc.Common().Args
+							if baseParam >= 0 && baseParam < len(args) {
+								di.base = -1
+								if bv, ok := constInt(args[baseParam]); ok {
+									di.base = bv
+								}
+							}
+							if kParam >= 0 && kParam < len(args) {
+								di.k = -1
+								if kv, ok := constInt(args[kParam]); ok {
+									di.k = kv
+								}
+							}
+							decs = append(decs, di)
+						}
+					}
+				}
 			}
 		}
 	}
@@ -140,8 +179,8 @@ func ruleNumericReferenceDecoders(w *World, r *Report) {
 			r.Bad(key, w.FnPos(fns[i]), fmt.Sprintf("the same syntax is decoded differently: {%s} vs {%s}: a reference means one character in text and another (or none) in a link destination", sig(perFn[fns[0]]), sig(perFn[fns[i]])))
 		}
 	}
-	r.Expect("numeric reference decoders", len(decs), 4)
-	r.Expect("functions decoding numeric references", len(fns), 2)
+	r.Expect("numeric reference decoders", len(decs), 2)
+	r.Expect("functions decoding numeric references", len(fns), 1)
 }
 
 func rulePunctuationSet(w *World, r *Report) {
